@@ -99,6 +99,10 @@ type Script struct {
 	Header  bool      `json:"h,omitempty"`
 	Turns   []Step    `json:"t,omitempty"`
 	Pad     int       `json:"pad,omitempty"`
+	// Sess: sticky-session action of the (init) handler: "" | open | use | close.
+	// "open" calls OpenSession (its error is returned), "use" fails with a
+	// ValueError when no session is bound, "close" closes the bound session.
+	Sess string `json:"sess,omitempty"`
 	// Tail: what a producer does after Turns are exhausted is always finish;
 	// what an exchange does after Turns are exhausted is emit.
 }
